@@ -518,3 +518,104 @@ func TestC12_ConcurrentBurst(t *testing.T) {
 		vstat.Count("bursts_whose_requests_met_inside_the_breaker", int64(overlapped))
 	})
 }
+
+// TestC12_EdgeBurst: after a clean recovery a burst of simultaneous requests (real goroutines,
+// released through a spin barrier) arrives just past the recovery period, many cycles per case.
+// Every one of them, and the request after them, is served by the handler and the breaker is in
+// standby; nothing may be left waiting (a stall is a violation, detected by a watchdog).
+func TestC12_EdgeBurst(t *testing.T) {
+	rapid.Check(t, func(t *rapid.T) {
+		F := rapid.SampledFrom(cbh.MsGrid[4:8]).Draw(t, "fallback")
+		R := rapid.SampledFrom(cbh.MsGrid[4:8]).Draw(t, "recovery")
+		G := rapid.IntRange(2, 16).Draw(t, "burst")
+		cycles := rapid.IntRange(5, 30).Draw(t, "cycles")
+		clock.Freeze(cbh.Epoch)
+		defer clock.Unfreeze()
+		handler := http.HandlerFunc(func(w http.ResponseWriter, r *http.Request) {
+			w.Header().Set("X-Handler", "1")
+			st, _ := strconv.Atoi(r.Header.Get("X-Want"))
+			w.WriteHeader(st)
+		})
+		cb, err := cbreaker.New(handler, "NetworkErrorRatio() > 0.5", cbreaker.FallbackDuration(F), cbreaker.RecoveryDuration(R), cbreaker.CheckPeriod(time.Millisecond))
+		if err != nil {
+			t.Fatalf("%v", err)
+		}
+		do := func(status int) bool {
+			req := httptest.NewRequest("GET", "http://x/", nil)
+			req.Header.Set("X-Want", strconv.Itoa(status))
+			rec := httptest.NewRecorder()
+			cb.ServeHTTP(rec, req)
+			return rec.Header().Get("X-Handler") == "1"
+		}
+		// within: run f on its own goroutine; a stall is reported, never waited out
+		within := func(what string, f func()) {
+			done := make(chan struct{})
+			go func() { defer close(done); f() }()
+			select {
+			case <-done:
+			case <-time.After(20 * time.Second):
+				t.Fatalf("%s: not answered within 20 s (frozen clock, instant handler): requests are stuck inside the breaker", what)
+			}
+		}
+		state := func() (s string) {
+			within("reading the breaker state", func() {
+				s = cb.String()
+				s = s[strings.Index(s, "state=")+6:]
+				if j := strings.IndexAny(s, ",)"); j >= 0 {
+					s = s[:j]
+				}
+			})
+			return s
+		}
+		for c := 0; c < cycles; c++ {
+			within("tripping", func() {
+				for i := 0; i < 20 && state() != "tripped"; i++ {
+					do(502)
+					clock.Advance(2*time.Millisecond + time.Microsecond)
+				}
+			})
+			if state() != "tripped" {
+				t.Fatalf("INFRA: could not trip the breaker in cycle %d (state %s)", c, state())
+			}
+			clock.Advance(F + time.Millisecond + time.Microsecond)
+			within("first request after the fallback period", func() { do(200) })
+			if st := state(); st != "recovering" {
+				t.Fatalf("cycle %d: state %s after the fallback period, want recovering", c, st)
+			}
+			clock.Advance(R + time.Millisecond + time.Microsecond)
+			var ready, passed atomic.Int64
+			var wg sync.WaitGroup
+			within(fmt.Sprintf("cycle %d: burst of %d requests just past the recovery period", c, G), func() {
+				for g := 0; g < G; g++ {
+					wg.Add(1)
+					go func() {
+						defer wg.Done()
+						ready.Add(1)
+						for ready.Load() < int64(G) {
+						}
+						if do(200) {
+							passed.Add(1)
+						}
+					}()
+				}
+				wg.Wait()
+			})
+			if passed.Load() != int64(G) {
+				t.Fatalf("cycle %d: %d simultaneous requests arrived just past a clean recovery period (%v); only %d were served by the handler", c, G, R, passed.Load())
+			}
+			ok := false
+			within(fmt.Sprintf("cycle %d: the request after the burst", c), func() { ok = do(200) })
+			if st := state(); !ok || st != "standby" {
+				t.Fatalf("cycle %d: after the recovery period: request served=%v, state %s; want served and standby", c, ok, st)
+			}
+			// a little healthy traffic so that the next trip starts from a used breaker
+			for i := 0; i < 2; i++ {
+				within("healthy traffic", func() { do(200) })
+				clock.Advance(3*time.Millisecond + time.Microsecond)
+			}
+			// the healthy samples must not keep the ratio below the threshold for ever
+			clock.Advance(11*time.Second + time.Microsecond)
+		}
+		vstat.Case(fmt.Sprintf("edge|%v|%v|%d|%d", F, R, G, cycles), cycles >= 5 && G >= 2, []string{"simultaneous-burst-at-the-end-of-recovery"}, map[string]any{"recovery": R.String(), "burst": G, "cycles": cycles})
+	})
+}
